@@ -60,7 +60,14 @@ def _kname(kind):
     return "ANY_KIND" if kind is ANY_KIND else kind
 
 
+class _Mark:
+    def __repr__(self):
+        return "<appended by the caller>"
+
+
 class _Ctx:
+    internal: set = frozenset()
+
     def __init__(self, prop, wit):
         self.prop = prop
         self.wit = wit
@@ -101,6 +108,17 @@ class _Ctx:
         ok, v = self.call(func, (lambda: list(fn())) if materialize else fn, **at)
         if ok and not (isinstance(v, list) and _same(v, expected)):
             self.bad(func, clause, f"returned {_r(v)}, filtering the raw list gives {_r(expected)}", **at)
+        elif ok and not materialize and isinstance(v, list) and id(v) not in self.internal:
+            # the caller owns a computed result: what it does to the list must not show in later answers
+            # (a node's own child list, which some queries hand out as it is, is left alone)
+            mark = _Mark()
+            v.append(mark)
+            ok2, v2 = self.call(func, fn, **at)
+            if ok2 and isinstance(v2, list) and any(e is mark for e in v2):
+                self.bad(func, clause, "the result list is shared between calls: after the caller appended to it, the same query answers with the appended element too", **at)
+            for k in range(len(v) - 1, -1, -1):
+                if v[k] is mark:
+                    del v[k]
         return v if ok else None
 
 
@@ -117,6 +135,7 @@ def check_tree(prop, tree, nodes, wit, *, spec=None, res: Result | None = None, 
     for i, n in enumerate(nodes):
         _LBL[id(n)] = f"#{i}({n._data!r}:{n._kind})"
     allnodes = view.reachable(tree)  # pre-order
+    cx.internal = {id(n._children) for n in [tree._root] + allnodes if n._children is not None} | {id(lst) for lst in tree._nodes_by_data_id.values()}
     present = sorted({n._kind for n in allnodes})
     kinds = present + [k for k in gen.KINDS + ("k3",) if k not in present][:1] + list(ABSENT_KINDS)
     # query with *equal but not identical* str objects (as parsed from a file / built at run time):
